@@ -12,7 +12,7 @@ while IFS=$'\t' read -r mid props note; do
   echo "$mid" | grep -qE "$pat" || continue
   [ -z "$props" ] && props="C01 C02 C09 C11 C12"
   git -C $wt checkout -q -- . ; git -C $wt clean -fdq
-  git -C $wt apply mutants/$mid.diff || { echo "$mid PATCH-DOES-NOT-APPLY"; continue; }
+  git -C $wt apply /verif/mutants/$mid.diff || { echo "$mid PATCH-DOES-NOT-APPLY"; continue; }
   if (cd $wt && go test -vet=off -count=1 ./... >/dev/null 2>&1); then tests="suite:PASS"; else tests="suite:FAIL"; fi
   git -C $wt checkout -q -- .
   res="$(VERIF_C03_SOURCE_ONLY=1 tools/seedcheck.sh mutants/$mid.diff $props 2>&1 | grep '^== ' | sed 's/^== //' | tr '\n' ';')"
